@@ -7,10 +7,13 @@ sys.path.insert(0, HERE)
 from nmfulint import core
 from nmfulint.context import Ctx
 
+BASE = os.environ.get("RUN_SEEDED_BASE", "/repo/nmfu.py")      # main() snapshots /repo/nmfu.py once, so that editing /repo during a run does not mix trees
+
+
 def patched_text(seed_dir):
     with tempfile.TemporaryDirectory() as td:
         dst = os.path.join(td, "nmfu.py")
-        r = subprocess.run(["patch", "-s", "-o", dst, "/repo/nmfu.py", os.path.join(seed_dir, "patch.diff")], capture_output=True, text=True)
+        r = subprocess.run(["patch", "-s", "-o", dst, BASE, os.path.join(seed_dir, "patch.diff")], capture_output=True, text=True)
         if r.returncode != 0 or not os.path.exists(dst):
             return None
         return open(dst).read()
@@ -37,6 +40,18 @@ def run_one(args):
     return sid, out
 
 def main():
+    global BASE
+    snap = tempfile.NamedTemporaryFile("w", suffix=".py", delete=False)
+    snap.write(open("/repo/nmfu.py").read())
+    snap.close()
+    BASE = os.environ["RUN_SEEDED_BASE"] = snap.name
+    try:
+        _main()
+    finally:
+        os.unlink(snap.name)
+
+
+def _main():
     args = [a for a in sys.argv[1:] if not a.startswith("--")]
     props = None
     for a in sys.argv[1:]:
